@@ -254,3 +254,158 @@ Proof.
   rewrite parse_script_lines. destruct (split_chunks_cases chunks) as [[l E]|E]; rewrite E; [|discriminate].
   intros H. exists l. split; [reflexivity|]. apply parse_lines_position. exact H.
 Qed.
+
+(* (1) accounting *)
+Theorem parse_script_accounts chunks start s :
+  parse_script chunks start = ROk s ->
+  exists lines ls ps,
+    split_chunks chunks = ROk lines /\
+    ploop lines 0 ls_init ps_init start = ROk (ls, ps) /\
+    (* nothing is left open at end of input *)
+    l_cont ls = [] /\ ps_frames ps = [] /\ ps_fn ps = None /\ s = ps_global ps /\
+    (* every logical line was folded exactly once, in order *)
+    llines lines 0 ls_init = (fst (llines lines 0 ls_init), LDone ls) /\
+    pfold (fst (llines lines 0 ls_init)) ps_init start = ROk ps /\
+    snd (ploop_count lines 0 ls_init ps_init start 0) = length (fst (llines lines 0 ls_init)).
+Proof.
+  rewrite parse_script_lines. destruct (split_chunks_cases chunks) as [[lines E]|E]; rewrite E; [|discriminate].
+  unfold parse_lines. intros H.
+  destruct (ploop lines 0 ls_init ps_init start) as [[ls ps]| | |] eqn:P; try discriminate.
+  exists lines, ls, ps. split; [reflexivity|]. split; [exact P|].
+  unfold pfinish in H.
+  destruct (l_cont ls) eqn:C; [|discriminate]. destruct (ps_frames ps) eqn:F; [|discriminate]. destruct (ps_fn ps) eqn:G; [discriminate|].
+  inversion H; subst s. repeat (split; [reflexivity|]).
+  pose proof P as P2. rewrite ploop_factor in P2. unfold ploop2 in P2.
+  destruct (llines lines 0 ls_init) as [lls t] eqn:L. cbn [fst].
+  destruct (pfold lls ps_init start) as [ps'| | |] eqn:Q; try discriminate.
+  destruct t as [ls'|[| | |]]; try discriminate. inversion P2; subst ls' ps'.
+  split; [reflexivity|]. split; [reflexivity|].
+  pose proof (ploop_count_snd lines 0 ls_init ps_init start 0 (ls, ps)) as N.
+  rewrite ploop_count_fst in N. specialize (N P). rewrite N, L. reflexivity.
+Qed.
+
+(* (3) shift: a comment / blank line in front *)
+Definition shifted (ls ls' : lstate) : Prop := l_cont ls' = l_cont ls /\ (l_cont ls <> [] -> l_ix ls' = S (l_ix ls)).
+
+Lemma lstep_shift ls ls' ix part : shifted ls ls' ->
+  match lstep ls ix part, lstep ls' (S ix) part with
+  | LSkip a, LSkip b => shifted a b
+  | LLine a i l, LLine b j l' => shifted a b /\ j = S i /\ l' = l
+  | LBad r, LBad r' => r = r'
+  | _, _ => False
+  end.
+Proof.
+  intros [S1 S2]. unfold lstep. rewrite S1.
+  destruct (is_comment part) as [[|]| | |]; try reflexivity; [split; assumption|].
+  destruct (strip_continuation part) as [s| | |]; try reflexivity.
+  destruct (negb (str_eqb part s)).
+  - destruct (l_cont ls) eqn:C; cbn.
+    + split; cbn; [reflexivity | intros _; reflexivity].
+    + split; cbn; [reflexivity | intros _; apply S2; discriminate].
+  - destruct (l_cont ls) eqn:C; cbn.
+    + repeat split; cbn; congruence.
+    + repeat split; cbn; try congruence. apply S2. discriminate.
+Qed.
+
+Definition shl (lls : list (nat * str)) : list (nat * str) := map (fun il => (S (fst il), snd il)) lls.
+
+Lemma llines_shift lines : forall ix ls ls', shifted ls ls' ->
+  fst (llines lines (S ix) ls') = shl (fst (llines lines ix ls)) /\
+  match snd (llines lines ix ls), snd (llines lines (S ix) ls') with
+  | LDone a, LDone b => shifted a b
+  | LFail r, LFail r' => r = r'
+  | _, _ => False
+  end.
+Proof.
+  induction lines as [|part rest IH]; intros ix ls ls' Sh; cbn [llines].
+  - cbn. split; [reflexivity | exact Sh].
+  - pose proof (lstep_shift ls ls' ix part Sh) as L.
+    destruct (lstep ls ix part) as [a|a i l|r]; destruct (lstep ls' (S ix) part) as [b|b j l'|r']; try contradiction.
+    + apply IH. exact L.
+    + destruct L as (L1 & -> & ->). specialize (IH (S ix) a b L1).
+      destruct (llines rest (S ix) a) as [x tx]; destruct (llines rest (S (S ix)) b) as [y ty]. cbn [fst snd] in *.
+      destruct IH as [I1 I2]. split; [rewrite I1; reflexivity | exact I2].
+    + cbn. split; [reflexivity | exact L].
+Qed.
+
+Lemma pfold_shift lls : forall ps start, pfold (shl lls) ps start = pfold lls ps (S start).
+Proof.
+  induction lls as [|[i line] t IH]; intros ps start; [reflexivity|].
+  cbn [shl map pfold fst snd]. rewrite Nat.add_succ_r. cbn [Nat.add].
+  destruct (pstep ps (S (start + i)) line); try reflexivity. apply IH.
+Qed.
+
+Lemma pfinish_shift ls ls' ps start : shifted ls ls' -> pfinish ls' ps start = pfinish ls ps (S start).
+Proof.
+  intros [S1 S2]. unfold pfinish. rewrite S1. destruct (l_cont ls) eqn:C; [reflexivity|].
+  rewrite S2 by discriminate. rewrite Nat.add_succ_r. reflexivity.
+Qed.
+
+Theorem parse_lines_comment_shift c lines start :
+  is_comment c = ROk true -> parse_lines (c :: lines) start = parse_lines lines (S start).
+Proof.
+  intros C. rewrite !parse_lines_view.
+  assert (E : llines (c :: lines) 0 ls_init = llines lines 1 ls_init).
+  { cbn [llines]. unfold lstep. rewrite C. reflexivity. }
+  rewrite E.
+  assert (S0 : shifted ls_init ls_init) by (split; [reflexivity | intros N; exfalso; apply N; reflexivity]).
+  destruct (llines_shift lines 0 ls_init ls_init S0) as [L1 L2].
+  destruct (llines lines 1 ls_init) as [y ty]; destruct (llines lines 0 ls_init) as [x tx]. cbn [fst snd] in *.
+  subst y. rewrite pfold_shift. destruct (pfold x ps_init (S start)); try reflexivity.
+  destruct tx as [ta|r]; destruct ty as [tb|r']; try contradiction.
+  - apply pfinish_shift. exact L2.
+  - subst r'. reflexivity.
+Qed.
+
+(* (3) shift: the caller's start line only renumbers *)
+Lemma pstep_map g ps n line : pstep (map_ps g ps) (g n) line = map_sres g (map_ps g) (pstep ps n line).
+Proof.
+  rewrite !pstep_is_classify_apply. unfold pstep2.
+  destruct (classify line) as [k|e| |] eqn:C; try reflexivity.
+  - apply apply_kind_map.
+  - exfalso. eapply classify_not_err. exact C.
+Qed.
+
+Lemma pfold_renumber g start start' lls : (forall i, g (start + i) = start' + i) ->
+  forall ps, pfold lls (map_ps g ps) start' = map_sres g (map_ps g) (pfold lls ps start).
+Proof.
+  intros G. induction lls as [|[i line] t IH]; intros ps; [reflexivity|].
+  cbn [pfold]. rewrite <- G, pstep_map.
+  destruct (pstep ps (start + i) line); try reflexivity. cbn [map_sres]. apply IH.
+Qed.
+
+Lemma pfinish_renumber g start start' ls ps : (forall i, g (start + i) = start' + i) ->
+  pfinish ls (map_ps g ps) start' = map_sres g (fun s => s) (pfinish ls ps start).
+Proof.
+  intros G. unfold pfinish. destruct (l_cont ls).
+  - destruct ps as [gl fn d fr ix]. cbn. destruct fr as [|f fr]; cbn.
+    + destruct fn; reflexivity.
+    + destruct f; reflexivity.
+  - cbn. unfold map_err, err. cbn. rewrite G. reflexivity.
+Qed.
+
+Theorem parse_lines_renumber g start start' lines : (forall i, g (start + i) = start' + i) ->
+  parse_lines lines start' = map_sres g (fun s => s) (parse_lines lines start).
+Proof.
+  intros G. rewrite !parse_lines_view.
+  destruct (llines_bounds lines 0 ls_init lok_init) as (_ & _ & B3).
+  destruct (llines lines 0 ls_init) as [lls t]. cbn [snd] in B3.
+  change ps_init with (map_ps g ps_init) at 1. rewrite (pfold_renumber g start start' lls G).
+  destruct (pfold lls ps_init start) as [ps'| | |]; try reflexivity. cbn [map_sres].
+  destruct t as [ls'|r]; [apply pfinish_renumber; exact G|].
+  rewrite (B3 r eq_refl). reflexivity.
+Qed.
+
+Corollary parse_lines_start_shift d start lines :
+  parse_lines lines (d + start) = map_sres (fun n => d + n) (fun s => s) (parse_lines lines start).
+Proof. apply parse_lines_renumber. intros i. lia. Qed.
+
+(* k comment/blank lines in front: every reported line number moves by exactly k, nothing else changes *)
+Theorem parse_lines_comments_shift pre lines start :
+  Forall (fun c => is_comment c = ROk true) pre ->
+  parse_lines (pre ++ lines) start = map_sres (fun n => length pre + n) (fun s => s) (parse_lines lines start).
+Proof.
+  intros F. rewrite <- parse_lines_start_shift. revert start.
+  induction F as [|c pre C F IH]; intros start; [reflexivity|].
+  cbn [app length]. rewrite parse_lines_comment_shift by exact C. rewrite IH. f_equal. lia.
+Qed.
